@@ -6,5 +6,6 @@ CONSTANTS
   MaxWrites = 8
   SendUnderLock = FALSE
   FlushTrySend = FALSE
+  InlineFlush = TRUE
 INVARIANTS NoSendUnderLock WritersNeverStuck TasksAnnounced
 CHECK_DEADLOCK FALSE
